@@ -45,6 +45,8 @@ type Contract struct {
 	SrcFile    string // source file defining the function (for imports)
 	Pkg        string
 	Props      []string // property ids this contract serves (from //@ props)
+	Counts     [][2]string // ghost call counters: (name, callee pattern)
+	Shared     []string    // locations other goroutines may write: havoced at blocking operations
 	// resolved
 	CalleeKey string
 	// synthetic param list text (names) in order
@@ -65,6 +67,7 @@ type ContractFile struct {
 	Lemmas    []*Clause
 	Imports   []string // extra imports for extern files
 	Macros    map[string]string
+	Rigid     []string
 }
 
 var macroRe = regexp.MustCompile(`\$(\w+)`)
@@ -159,6 +162,11 @@ func parseContractFile(path string) (*ContractFile, error) {
 			}
 			lastMacro = strings.TrimSpace(rest[:i])
 			cf.Macros[lastMacro] = strings.TrimSpace(rest[i+1:])
+		case "rigid":
+			// state-independent pure functions (configuration getters): no heap-epoch argument
+			for _, m := range splitTop(rest, ',') {
+				cf.Rigid = append(cf.Rigid, strings.TrimSpace(m))
+			}
 		case "import":
 			cf.Imports = append(cf.Imports, rest)
 		case "file":
@@ -227,6 +235,16 @@ func parseContractFile(path string) (*ContractFile, error) {
 						cur.PureParams = append(cur.PureParams, strings.TrimSpace(m))
 					}
 				}
+			case "shared":
+				for _, m := range splitTop(rest, ',') {
+					cur.Shared = append(cur.Shared, strings.TrimSpace(m))
+				}
+			case "count":
+				f := strings.Fields(rest)
+				if len(f) != 2 {
+					return nil, fmt.Errorf("%s:%d: count needs NAME PATTERN", path, ln)
+				}
+				cur.Counts = append(cur.Counts, [2]string{f[0], f[1]})
 			case "inline":
 				cur.Inline = true
 			case "safety":
@@ -423,9 +441,11 @@ func rewriteSpec(s string) (string, error) {
 	out = oldRe.ReplaceAllString(out, "${1}verif_old(")
 	out = freshRe.ReplaceAllString(out, "${1}verif_fresh(")
 	out = prevRe.ReplaceAllString(out, "${1}verif_prev(")
+	out = callsRe.ReplaceAllString(out, "${1}verif_${2}(")
 	return out, nil
 }
 
+var callsRe = regexp.MustCompile(`(^|[^\w.])(calls|lastarg|lastres|same|raw)\(`)
 var oldRe = regexp.MustCompile(`(^|[^\w.])old\(`)
 var freshRe = regexp.MustCompile(`(^|[^\w.])fresh\(`)
 var prevRe = regexp.MustCompile(`(^|[^\w.])prev\(`)
